@@ -212,7 +212,9 @@ pub fn main(args: &[String]) -> i32 {
         }
         // wide, short matrices: the row-major LDE is transposed in 2 * next_pow2(threads) batches once it has 1024 cells, which
         // can be more batches than it has rows
-        for (n, cols, blowup) in [(8usize, 136usize, 8usize), (8, 255, 4), (16, 130, 4), (16, 60, 8)] {
+        // ... and matrices whose number of 8-column segments is not a power of two (3, 5, 7, 9 segments) with 1024..4096 LDE rows: a batch
+        // count derived from the number of cells is then not a divisor of the number of rows
+        for (n, cols, blowup) in [(8usize, 136usize, 8usize), (8, 255, 4), (16, 130, 4), (16, 60, 8), (256, 17, 4), (512, 24, 4), (256, 40, 8), (128, 50, 8), (512, 65, 8)] {
             type B = f64::BaseElement;
             let mut rng = Rng(0x99);
             let polys: Vec<Vec<B>> = (0..cols).map(|_| (0..n).map(|_| B::from(rng.next() as u32)).collect()).collect();
